@@ -115,6 +115,7 @@ type Opts struct {
 	BWTimeout      time.Duration
 	OnSignal       func(codes.Code)
 	RequestMonitor client.RequestMonitorFunc
+	PoolSize       uint32   // >0: the connection's message pool really recycles (up to this many objects; LIFO in the overlay)
 	WriteErr       error    // every write fails from the start (the CSM sent at construction cannot be written)
 	OnClose        []func() // on-close callbacks registered before the read loop starts
 }
@@ -133,7 +134,7 @@ type World struct {
 func New(o Opts) *World {
 	w := &World{St: &Stream{Handshake: o.Handshake, WriteErr: o.WriteErr}}
 	cfg := client.DefaultConfig
-	w.Pool = pool.New(0, 0)
+	w.Pool = pool.New(o.PoolSize, 0)
 	cfg.MessagePool = w.Pool
 	cfg.Errors = func(err error) { w.Errors = append(w.Errors, err.Error()) }
 	cfg.LimitClientParallelRequests = o.LimitTotal
